@@ -224,6 +224,22 @@ Proof.
   rewrite (bearer_keep_complete _ _ _ Hd). rewrite (IH Hr). destruct r; reflexivity.
 Qed.
 
+Lemma issue_complete n k i : (Z.abs (sec i - n) <? 86400 + k) = true -> issue_instant_ok n k i = true.
+Proof. unfold issue_instant_ok, str_to_time, sec. lia. Qed.
+
+Lemma statement_complete n k st : upper_strict_b n k st = true -> exists v, validate_on_or_after n k st = Some v.
+Proof.
+  destruct st as [[st f]|]; unfold_w; intros H; [|eexists; reflexivity].
+  destruct (n >? st + k) eqn:E; [lia|eexists; reflexivity].
+Qed.
+
+Lemma conditions_complete n k c :
+  match c with Some w => w_strict_b n k w | None => true end = true -> exists v, conditions_ok n k c = Some v.
+Proof.
+  destruct c as [[[[c1 f1]|] [[c2 f2]|]]|]; unfold conditions_ok; unfold_w; intros H; split_ifs;
+    try (eexists; reflexivity); try discriminate; lia.
+Qed.
+
 Lemma xaccept_complete_b x : xstrictly_inside_b x = true -> xaccept x <> Reject.
 Proof.
   destruct x as [n a m]. unfold xstrictly_inside_b, xaccept, xskew, verify_ok. cbn [xnow xatd xm]. rewrite timeslack_skew.
@@ -231,21 +247,13 @@ Proof.
   repeat (apply andb_true_iff in H; let H' := fresh "H" in destruct H as [H H']).
   fold (conf_strict_b n k) in *.
   rename H into Hk0, H6 into Hun, H5 into Hd, H4 into Hst, H3 into Hc, H2 into Hne, H1 into Hcf, H0 into Hi.
-  rewrite Hun. cbn [negb].
-  assert (Ei : issue_instant_ok n k (m_issue m) = true).
-  { unfold issue_instant_ok, str_to_time, sec in *. lia. }
-  rewrite Ei.
+  rewrite Hun. cbn [negb]. rewrite (issue_complete _ _ _ Hi).
   assert (Ed : (if asynchop (m_binding m) then match m_destination m with Some false => false | _ => true end else true) = true).
   { destruct (asynchop (m_binding m)); [exact Hd|reflexivity]. }
   rewrite Ed. cbn [andb negb].
   destruct (m_statements m) as [|s [|s2 r]]; try discriminate Hst. cbn [statements_ok].
-  assert (Es : exists v, validate_on_or_after n k s = Some v).
-  { destruct s as [[s f]|]; unfold_w; [|eexists; reflexivity]. destruct (n >? s + k) eqn:E; [lia|eexists; reflexivity]. }
-  destruct Es as [v ->].
-  assert (Ec : exists v, conditions_ok n k (m_conditions m) = Some v).
-  { destruct (m_conditions m) as [[[[c1 f1]|] [[c2 f2]|]]|]; unfold conditions_ok; unfold_w; split_ifs;
-      try (eexists; reflexivity); try discriminate; lia. }
-  destruct Ec as [v' ->].
+  destruct (statement_complete _ _ _ Hst) as [v ->].
+  destruct (conditions_complete _ _ _ Hc) as [v' ->].
   rewrite (confirmations_ok_complete _ _ _ Hcf). destruct (m_confirmations m); [discriminate Hne|]. discriminate.
 Qed.
 
